@@ -19,7 +19,7 @@ fn digest(seed: u64, runs: u64, jobs: usize) -> BTreeMap<(String, u64), (u64, u6
         let _ = crate::batch::run_batch(runs, jobs, usize::MAX, None, &case);
     }
     // component simulations and the state-readers component of C10
-    for check in crate::components::COMPONENT_CHECKS {
+    for check in crate::components::COMPONENT_CHECKS.iter().chain(["C07"].iter()) {
         let case = |idx: u64| {
             let r = crate::components::case_record(check, Tier::Quick, seed, idx);
             out.lock().unwrap().insert((format!("{check}-component"), idx), (r.stats.trace_hash, r.stats.decisions, r.stats.behaviour));
@@ -30,6 +30,12 @@ fn digest(seed: u64, runs: u64, jobs: usize) -> BTreeMap<(String, u64), (u64, u6
     let case = |idx: u64| {
         let r = crate::statecomp::case_record(Tier::Quick, seed, idx);
         out.lock().unwrap().insert(("C10-state-readers".to_string(), idx), (r.stats.trace_hash, r.stats.decisions, r.stats.behaviour));
+        r
+    };
+    let _ = crate::batch::run_batch(runs, jobs, usize::MAX, None, &case);
+    let case = |idx: u64| {
+        let r = crate::histcomp::case_record(Tier::Quick, seed, idx);
+        out.lock().unwrap().insert(("C10-history-differential".to_string(), idx), (r.stats.trace_hash, r.stats.decisions, r.stats.behaviour));
         r
     };
     let _ = crate::batch::run_batch(runs, jobs, usize::MAX, None, &case);
